@@ -63,6 +63,6 @@ def build(tier):
 CANARY_FUNCTIONS = ["macro_method_symbol", "macro_destructor_symbol"]
 ASSUMPTIONS = [
     "E15: one statement each; Ident::new(text, span) yields an identifier with that text (proc_macro2); that `#extern_ident` / `#destroy_ident` is the name in the emitted `extern \"C\" fn` item is read from the quote! templates following the statements",
-    "ast -> hir lowering copies abi_name unchanged: unit lower_method_gate (lower_method postcondition); dtor_abi_name in lower_opaque: read",
+    "ast -> hir lowering copies abi_name unchanged: unit lower_method_gate (lower_method / lower_opaque postconditions)",
 ]
-UNVERIFIED = {"C06": ["the quote! templates (read)", "lower_opaque copying dtor_abi_name (read)"]}
+UNVERIFIED = {"C06": ["the quote! templates (read)"]}
